@@ -1,2 +1,29 @@
-(* C08 (Port share) -- placeholder until PortProofs.v lands. *)
-From ONL Require Import Elem.Port Elem.Red.
+(* C08, the share of Port / REDPort (any drop policy c): conservation, per-flow order, drained.
+   Only statements, closed by the lemma that proves them, and their assumptions. *)
+From Coq Require Import ZArith QArith List Bool Permutation.
+From ONL Require Import Elem.Packet Elem.StoreQ Elem.Port Elem.Red Elem.PortProofs.
+Import ListNotations.
+
+(* put-in = forwarded + refused + held as multisets of the very packets (records with their uid and header
+   fields); the refused ones are exactly the counted drops; accepted = forwarded ++ held as LISTS (FIFO) *)
+Theorem C08_port_conserves : forall (c : pcfg) (t0 : Q) (acts : list paction) (s : port) (tr : list pev),
+  port_run c (port0 t0) acts = Some (s, tr) ->
+  Permutation (puts tr) (forwarded tr ++ dropped tr ++ port_held s)
+  /\ pdrop s = Z.of_nat (length (dropped tr))
+  /\ map snd (accepted tr) = forwarded tr ++ port_held s.
+Proof. exact port_conserves. Qed.
+Print Assumptions C08_port_conserves.
+
+(* the packets of one flow (of any class f of packets) leave in the order in which they were put in *)
+Theorem C08_port_flow_fifo : forall (c : pcfg) (t0 : Q) (acts : list paction) (s : port) (tr : list pev) (f : pkt -> bool),
+  port_run c (port0 t0) acts = Some (s, tr) ->
+  subseq (filter f (forwarded tr)) (filter f (puts tr))
+  /\ exists rest, filter f (map snd (accepted tr)) = filter f (forwarded tr) ++ rest.
+Proof. exact port_flow_fifo. Qed.
+Print Assumptions C08_port_flow_fifo.
+
+(* nothing enabled and no deadline pending (the port's share of "the simulation ran out of events"): nothing held *)
+Theorem C08_port_drained : forall (c : pcfg) (t0 : Q) (acts : list paction) (s : port) (tr : list pev),
+  port_run c (port0 t0) acts = Some (s, tr) -> purgent s = false -> psvc s = None -> port_held s = [].
+Proof. exact port_drained. Qed.
+Print Assumptions C08_port_drained.
